@@ -24,7 +24,7 @@ theorem logOK_snoc {T : List Tx} {cs : List CTx} {c : Nat} (h : LogOK T cs c) (t
   have hsc := scan_snoc_body cs t (allNodes T).length tx
   have hck : (scan (cs ++ [⟨t, body (allNodes T).length tx⟩])).ckpt = (scan cs).ckpt := by rw [hsc]
   have hnle : ¬ t ≤ (scan cs).ckpt := by omega
-  refine ⟨?_, ?_, ?_, ?_, ?_, ?_, ?_, ?_⟩
+  refine ⟨?_, ?_, ?_, ?_, ?_, ?_, ?_, ?_, ?_⟩
   · rw [allNodes_snoc]; exact hf.nodup
   · rw [allNodes_snoc]; simp [h.nozero, hf.nozero]
   · rw [allNodes_snoc]; simp; have := h.cle; omega
@@ -69,6 +69,7 @@ theorem logOK_snoc {T : List Tx} {cs : List CTx} {c : Nat} (h : LogOK T cs c) (t
       simp [runOf, propsOf_body]
   · rw [hsc]; exact h.nosegs
   · rw [hsc]; exact h.noroot
+  · rw [hsc]; exact Nat.le_trans h.ckptle (Nat.le_max_left _ _)
 
 theorem pagerOK_extend {N M : List Nat} {c : Nat} {p : PImg} (h : PagerOK N c p) : PagerOK (N ++ M) c p where
   booted := h.booted
